@@ -338,7 +338,7 @@ func randCatalog(rnd *rand.Rand, nRepos, nTags, nb, nm int, big bool) *Catalog {
 	sort.Strings(cat.Repos)
 	sort.Strings(cat.Tags)
 	var blobs, mans []string
-	fixed := [][]int{{}, {0}, {7, 0}, {0xe2, 0x82}, {0xff, 0xfe, 0x00}, {'h', 'i', '\n'}}
+	fixed := [][]int{{}, {0}, {7, 0}, {0xe2, 0x82}, {0xff, 0xfe, 0x00}, {'h', 'i', '\n'}, {'{', '}'}} // the last one is the well-known empty JSON blob
 	for i := 0; i < nb; i++ {
 		id := fmt.Sprintf("b%d", i)
 		var elems []int
